@@ -581,8 +581,9 @@ Fixpoint sig_eqb (a b : list (string * string)) : bool :=
   | _, _ => false
   end.
 
-(* the global switch.  neuroml/build_time_validation.py is a docstring and ONE assignment of a bool literal to the module-level
-   name ENABLED (on by default); the helpers of neuroml/__init__.py assign / read that attribute of the module bound by
+(* the global switch.  neuroml/build_time_validation.py binds the module-level name ENABLED ONCE, to a bool literal (on by default),
+   and contains nothing else that could matter (unrelated plain functions, literal constants, docstring, comments are tolerated by
+   the translator; imports, classes, global-declaring functions, anything touching module/thread-state machinery are reported); the helpers of neuroml/__init__.py assign / read that attribute of the module bound by
    `from . import build_time_validation`, and add()/component_factory read it as neuroml.build_time_validation.ENABLED
    (translators/tr_switch.py reads the real shapes, statement by statement; anything else shows up as "other: ...").
    A plain attribute in a plain module's dictionary is one cell shared by every thread of the process: that is what the single
@@ -599,7 +600,7 @@ Fixpoint named_strl_eqb (a b : list (string * list string)) : bool :=
   | (n, x) :: r, (m, y) :: q => String.eqb n m && strl_eqb x y && named_strl_eqb r q
   | _, _ => false
   end.
-Definition modelled_switch_module : list string := ["doc"; "ENABLED = True"].
+Definition modelled_switch_module : list string := ["ENABLED = True"].   (* the one binding of ENABLED; nothing else that matters *)
 Definition modelled_switch_helpers : list (string * list string) :=
   [("disable_build_time_validation", ["build_time_validation.ENABLED = False"]);
    ("enable_build_time_validation", ["build_time_validation.ENABLED = True"]);
